@@ -34,7 +34,13 @@ fn hash_stream_common<R: Read, G: GeneratorType>(
 ) -> Result<G::Output, GeneratorOrIOError> {
     let mut buffer = vec![0u8; BUFFER_SIZE];
     loop {
-        let len = reader.read(&mut buffer)?;
+        let len = match reader.read(&mut buffer) {
+            Ok(len) => len,
+            // A transient interruption is not an error: retry the read
+            // (as `Read::read` documents and `read_to_end` etc. do).
+            Err(ref err) if err.kind() == std::io::ErrorKind::Interrupted => continue,
+            Err(err) => return Err(err.into()),
+        };
         if len == 0 {
             break;
         }
